@@ -223,6 +223,19 @@ func runC06(c *core.Ctx) {
 			return cc != nil && isInvoke(cc, "Reset") && isRecvField(fn, cc.Value, "dataTries")
 		}, core.SuccessReturn, nil, "the cache of loaded data tries (mutated in place by saveDataTrie) is dropped whenever the main trie is recreated")
 	}
+	// the data trie an account works on is the one the cache hands out later: a newly created data trie is registered unconditionally
+	if fn := anchorM(c, pkg, "AccountsDB", "saveDataTrie"); fn != nil {
+		for i, in := range core.CallsIn(fn, func(in ssa.Instruction, cc *ssa.CallCommon) bool { return isInvoke(cc, "SetDataTrie") }) {
+			tr := core.CallOf(in).Args[0]
+			q := core.PathQ{Fn: fn, From: in, Via: func(x ssa.Instruction) bool {
+				cc := core.CallOf(x)
+				return cc != nil && isInvoke(cc, "Put") && isRecvField(fn, cc.Value, "dataTries") && len(cc.Args) == 2 && cc.Args[1] == tr
+			}, Target: core.AnyReturn}
+			esc, p := q.Escape()
+			c.Check(esc == nil, "C06/revert-to-zero-recreates", fmt.Sprintf("AccountsDB.saveDataTrie/new-data-trie-cached#%d", i), in.Pos(), "a data trie created for the account replaces whatever the cache held for that address",
+				"a newly created data trie is not (always) put in the data-trie cache ("+c.P.PathString(p)+"): later loads of the account get a stale instance, so written values are invisible and a revert works on the wrong trie")
+		}
+	}
 	c.Floor("C06/revert-to-zero-recreates", 3)
 }
 
